@@ -340,6 +340,6 @@ ASSUMPTIONS = [
 
 BOUNDED = {p: [{'name': 'temporal-literals-and-zones', 'script': 'tempdiff.py', 'args': [],
                 'functions': ['feel/src/temporal (regex patterns RE_DATE / RE_TIME / RE_DATE_AND_TIME, duration parsers, get_zone_offset through chrono-tz, TryFrom<(FeelNumber, FeelNumber, FeelNumber)> for FeelDate)'],
-                'bound': 'about 5 700 FEEL expressions: date / time / date-and-time / duration literals from component grids (accepted, and equal to what their text form reads back as) and with one separator replaced by a foreign '
+                'bound': 'about 6 600 FEEL expressions: date / time / date-and-time / duration literals from component grids (accepted, and equal to what their text form reads back as) and with one separator replaced by a foreign '
                          'character or a component out of range (null); date(y, m, d) for 6 years x 13 months x 14 days including values beyond 256 and 65536; the UTC offset in force at local times every 30 minutes around each '
-                         '2020 / 2021 transition of five IANA zones (ambiguous and non-existent local times excluded) against CPython zoneinfo; every zone identifier spelled with digits, signs, three components or no area; instants that differ in any of the nine fraction digits and one instant written on two calendar days under = != < <= in and list membership (served under C09 too); components of durations beyond 2^64 nanoseconds'}] for p in ('C14', 'C15', 'C09')}
+                         '2020 / 2021 transition of five IANA zones (ambiguous and non-existent local times excluded; on the hour also with fractional seconds) against CPython zoneinfo; the `time offset` of winter and summer dates in three zones (the offset of the date of the value, not of today); offsets written with seconds under = < > and subtraction; every zone identifier spelled with digits, signs, three components or no area; instants that differ in any of the nine fraction digits and one instant written on two calendar days under = != < <= in and list membership (served under C09 too); components of durations beyond 2^64 nanoseconds'}] for p in ('C14', 'C15', 'C09')}
